@@ -202,36 +202,30 @@ def _check_wakeups(check, an: Analysis):
                 if event.kind == 'store' and event.get('stmt') is stmt:
                     n_sites += 1
                     block = rules.atomic_block(path, index)
-                    looped = any(e.kind == 'iter-end' for e in block)
+                    looped = any(e.kind == 'iter-end' and '_listeners' in rules.value_text(
+                        path, rules.event_index(path, e), e.node.iter) for e in block)
                     if not looped:
                         ok = False
                         bad = bad or (path, index)
-        loops = [n for n in ast.walk(fn.node) if isinstance(n, ast.For)
-                 and '_listeners' in ast.unparse(n.iter)]
-        body_ok = len(loops) == 1 and len(loops[0].body) == 1 and \
-            isinstance(loops[0].body[0], ast.Expr) and \
-            isinstance(loops[0].body[0].value, ast.Call) and \
-            ast.unparse(loops[0].body[0].value.func) == '%s.__on_changed__' % ast.unparse(
-                loops[0].target) and not any(isinstance(n, (ast.Break, ast.Continue))
-                                             for n in ast.walk(loops[0]))
+        body_ok = _all_listeners_told(an, callee, stmt)
         check.instance('W', '%s:self._value=' % short(fn.qn), ok and n_sites > 0 and body_ok,
                        '%s:%d' % (fn.module.relpath, stmt.lineno),
                        'every listener is told about the new value before the next '
                        'suspension (loop over all listeners: %s)' % body_ok,
                        path=rules.path_lines(*bad) if bad else None, analysed=n_sites)
     changed = an.callee(COMPARISON, '__on_changed__')
-    ok = True
+    seen = {}
     for path in an.paths(changed):
         if not path.normal:
             continue
-        tests = [e for e in path.events if e.kind == 'test']
+        tests = [e for e in path.events if e.kind == 'test'
+                 and e.get('key') == ('truth', 'self._test()')]
         triggered = any(is_call_to(e, '__trigger__') for e in path.events)
-        if tests and tests[0]['value']:
-            ok &= triggered
-    calls_test = any(isinstance(n, ast.If) and ast.unparse(n.test) == 'self._test()'
-                     for n in ast.walk(changed.fn.node))
-    check.instance('W', 'AsyncComparison.__on_changed__', ok and calls_test,
-                   where_fn(changed.fn), 'a comparison that now holds triggers its waiters')
+        if tests:
+            seen[key_truth(tests[0])] = triggered
+    check.instance('W', 'AsyncComparison.__on_changed__', seen == {True: True, False: False},
+                   where_fn(changed.fn), 'a comparison that now holds triggers its waiters, '
+                   'one that does not hold stays quiet: %s' % seen)
     cinit = an.callee(COMPARISON, '__init__')
     cparams = [a.arg for a in cinit.fn.node.args.args]
     verdict, n_paths, bad = True, 0, None
@@ -268,6 +262,30 @@ def _check_wakeups(check, an: Analysis):
     check.floor('W', 7)
 
 
+def _all_listeners_told(an: Analysis, callee, stmt) -> bool:
+    """every listener gets `__on_changed__()`; the loop over them is never left early"""
+    ok, n = True, 0
+    for path in an.paths(callee):
+        if not path.normal:
+            continue
+        loop_events = [(i, e) for i, e in enumerate(path.events)
+                       if e.kind in ('iter-next', 'iter-end') and '_listeners' in
+                       rules.value_text(path, i, e.node.iter)]
+        if not loop_events:
+            return False
+        n += 1
+        ok &= loop_events[-1][1].kind == 'iter-end'
+        for (i, e), (j, _nxt) in zip(loop_events, loop_events[1:]):
+            if e.kind != 'iter-next':
+                continue
+            var = ast.unparse(e.node.target)
+            told = any(x.kind in ('call', 'enter') and isinstance(x.node, ast.Call) and
+                       ast.unparse(x.node.func) == '%s.__on_changed__' % var
+                       for x in path.events[i:j])
+            ok &= told
+    return ok and n > 0
+
+
 def _direction(event, value) -> str:
     if isinstance(value, ast.Constant):
         return 'rise' if value.value else 'fall'
@@ -299,27 +317,50 @@ def _lowered_private_flag(an: Analysis, fn, stmt, recv_text):
 
 def _check_connective_subscription(check, an: Analysis):
     fn = an.method(CONNECTIVE, '__await_children__')
-    loops = [n for n in ast.walk(fn.node) if isinstance(n, ast.For)]
-    ok = False
-    detail = 'loop over the operands not found'
-    if len(loops) == 1 and ast.unparse(loops[0].iter) == 'self._children':
-        loop = loops[0]
-        var = ast.unparse(loop.target)
-        has_break = any(isinstance(n, ast.Break) for n in ast.walk(loop))
-        enters = [n for n in ast.walk(loop) if isinstance(n, ast.Call)
-                  and isinstance(n.func, ast.Attribute) and n.func.attr == 'enter_context'
-                  and n.args and ast.unparse(n.args[0]) == '%s.__subscription__()' % var]
-        skips = [n for n in ast.walk(loop) if isinstance(n, ast.If)
-                 and ast.unparse(n.test) == var and len(n.body) == 1
-                 and isinstance(n.body[0], ast.Continue)]
-        in_stack = any(isinstance(w, ast.With) and any(
-            ast.unparse(item.context_expr).startswith('ExitStack(') for item in w.items)
-            and any(sub is loop for sub in ast.walk(w)) for w in ast.walk(fn.node))
-        ok = not has_break and len(enters) == 1 and len(skips) <= 1 and in_stack
-        detail = ('no break (%s); every operand is either true (`continue`) or subscribed '
-                  'through the ExitStack (%s); loop inside `with ExitStack()` (%s)'
-                  % (not has_break, len(enters) == 1, in_stack))
-    check.instance('S', 'Connective:subscribes-all-false-operands', ok, where_fn(fn), detail)
+    for qn in (ALL, ANY):
+        callee = an.callee(qn, '__await_children__')
+        verdict, n_rounds, bad = True, 0, None
+        for path in an.paths(callee):
+            # one "round" = the operand loop that precedes a bare hibernate
+            for index, event in enumerate(path.events):
+                if not (event.kind == 'susp' and event.get('base') and event.depth == 0):
+                    continue
+                n_rounds += 1
+                start = max([i for i, e in enumerate(path.events[:index])
+                             if e.kind == 'exitstack-enter'] or [0])
+                seg = path.events[start:index]
+                loop = [(i, e) for i, e in enumerate(seg) if e.kind in ('iter-next',
+                                                                        'iter-end')]
+                good = bool(loop) and loop[-1][1].kind == 'iter-end' and \
+                    rules.value_text(path, start + loop[-1][0],
+                                     loop[-1][1].node.iter) == 'self._children'
+                for (i, e), (j, _n) in zip(loop, loop[1:]):
+                    if e.kind != 'iter-next':
+                        continue
+                    var = ast.unparse(e.node.target)
+                    body = seg[i:j]
+                    held = [t for t in body if t.kind == 'test'
+                            and t.get('key') == ('truth', var)]
+                    entered = [x for x in body if x.kind == 'call' and isinstance(
+                        x.node, ast.Call) and isinstance(x.node.func, ast.Attribute)
+                        and x.node.func.attr == 'enter_context' and x.node.args
+                        and rules.value_text(path, start + body.index(x) + i,
+                                             x.node.args[0]) == '%s.__subscription__()' % var]
+                    if not held:
+                        good = False
+                    elif key_truth(held[0]):
+                        good &= not entered
+                    else:
+                        good &= len(entered) == 1
+                if not good:
+                    verdict = False
+                    bad = bad or (path, index)
+        check.instance('S', 'Connective[%s]:subscribes-all-false-operands'
+                       % qn.rsplit('.', 1)[-1], verdict and n_rounds > 0, where_fn(fn),
+                       'before every hibernate, the loop over `self._children` ran to its '
+                       'end and every false operand was subscribed through the ExitStack, '
+                       'every true one skipped (%d rounds on paths)' % n_rounds,
+                       path=rules.path_lines(*bad) if bad else None, analysed=n_rounds)
     for qn in (ALL, ANY):
         callee = an.callee(qn, '__await_children__')
         bad = None
